@@ -101,7 +101,7 @@ TEXT["C18"] = dict(
 )
 
 TEXT["C19"] = dict(
-    level="Write-level runtime monitoring against a reference slog.TextHandler: every Write reaching the shared writer is captured and judged (one newline-terminated JSON object, exactly severity+message, message == reference line for the record plus the attributes accumulated on the derivation path) over all attribute-count derivation trees to depth 4/5 with 3 siblings per level, shared Records, hostile keys/values of every slog.Kind and 10 option sets (4 of them built through slogutil.New with an independently written reference); a concurrent stage under the race detector writes through a 7-handler tree to one deliberately unsynchronised writer and compares the multiset of lines with the references; a writer-fault stage makes the shared writer fail or panic in one of its first Writes and requires every later record to still come out as one line; a reentrant stage formats values that log through the same handler tree while being formatted. Exploration.",
+    level="Write-level runtime monitoring against a reference slog.TextHandler: every Write reaching the shared writer is captured and judged (one newline-terminated JSON object, exactly severity+message, message == reference line for the record plus the attributes accumulated on the derivation path) over all attribute-count derivation trees to depth 4/5 with 3 siblings per level, shared Records, hostile keys/values of every slog.Kind and 11 option sets (4 of them built through slogutil.New with an independently written reference, one that removes every built-in attribute); a concurrent stage under the race detector writes through a 7-handler tree to one deliberately unsynchronised writer and compares the multiset of lines with the references; a writer-fault stage makes the shared writer fail or panic in one of its first Writes and requires every later record to still come out as one line; a reentrant stage formats values that log through the same handler tree while being formatted. Exploration.",
     note="Trusts slog.TextHandler and encoding/json of the pinned stdlib. Comparison is semantic (decoded JSON), so escaping style and member order are free.",
     technique="runtime differential monitor on the writer boundary (reference text handler) + race detector with an unsynchronised recording writer",
 )
